@@ -276,3 +276,61 @@ Definition vocab_ok : bool :=
                     && forallb (fun op => mem op (gen_base_vocab g)) (spec_vocab g)
                     && forallb (fun op => mem op gen_universe) (gen_base_vocab g)
                     && (2 <=? List.length (gen_impls g))%nat) all_grp.
+
+Lemma ob_eqb_true : forall a b, ob_eqb a b = true -> a = Some b.
+Proof. intros [[]|] []; cbn; intros; congruence. Qed.
+Lemma in_all_grp : forall g, In g all_grp.
+Proof. intros []; cbn; auto. Qed.
+
+Lemma perform_ok_true : perform_ok = true.
+Proof. vm_compute. reflexivity. Qed.
+Lemma match_ok_true : match_ok = true.
+Proof. vm_compute. reflexivity. Qed.
+Lemma match_uniform_ok_true : match_uniform_ok = true.
+Proof. vm_compute. reflexivity. Qed.
+Lemma vocab_ok_true : vocab_ok = true.
+Proof. vm_compute. reflexivity. Qed.
+
+Lemma vocab_perform_l : forall g f op, In f (gen_impls g) -> In op gen_universe ->
+  gen_perform g f op = Some (mem op (gen_base_vocab g)).
+Proof.
+  intros g f op Hf Hop. pose proof perform_ok_true as H. unfold perform_ok in H.
+  rewrite forallb_forall in H. specialize (H g (in_all_grp g)). rewrite forallb_forall in H. specialize (H f Hf).
+  rewrite forallb_forall in H. apply ob_eqb_true. apply H. exact Hop.
+Qed.
+Lemma vocab_match_l : forall g f op, In f (gen_declared g) -> In op (gen_base_vocab g) -> gen_match g f op = Some true.
+Proof.
+  intros g f op Hf Hop. pose proof match_ok_true as H. unfold match_ok in H.
+  rewrite forallb_forall in H. specialize (H g (in_all_grp g)). rewrite forallb_forall in H. specialize (H f Hf).
+  rewrite forallb_forall in H. apply ob_eqb_true. apply H. exact Hop.
+Qed.
+Lemma vocab_match_uniform_l : forall g f f' op, In f (gen_declared g) -> In f' (gen_declared g) -> In op gen_universe ->
+  gen_match g f op = gen_match g f' op /\ gen_match g f op <> None.
+Proof.
+  intros g f f' op Hf Hf' Hop. pose proof match_uniform_ok_true as H. unfold match_uniform_ok in H.
+  rewrite forallb_forall in H. specialize (H g (in_all_grp g)). rewrite forallb_forall in H. specialize (H f Hf).
+  rewrite forallb_forall in H. specialize (H f' Hf'). rewrite forallb_forall in H. specialize (H op Hop).
+  destruct (gen_match g f op) as [[]|], (gen_match g f' op) as [[]|]; cbn in H; try discriminate; split; congruence.
+Qed.
+Lemma mem_true_iff : forall s l, mem s l = true <-> In s l.
+Proof.
+  intros. unfold mem. rewrite existsb_exists. split.
+  - intros [x [Hx E]]. apply String.eqb_eq in E. subst. exact Hx.
+  - intros H. exists s. split; auto. apply String.eqb_refl.
+Qed.
+Lemma spec_covers_vocab_l : forall g op, In op (gen_base_vocab g) <-> In op (spec_vocab g).
+Proof.
+  intros g op. pose proof vocab_ok_true as H. unfold vocab_ok in H. rewrite forallb_forall in H.
+  specialize (H g (in_all_grp g)). repeat (apply andb_true_iff in H; destruct H as [H ?]).
+  rewrite forallb_forall in H, H2. split; intros Hin.
+  - apply mem_true_iff. apply H. exact Hin.
+  - apply mem_true_iff. apply H2. exact Hin.
+Qed.
+Lemma two_implementations_l : forall g, (2 <= List.length (gen_impls g))%nat.
+Proof.
+  intros g. pose proof vocab_ok_true as H. unfold vocab_ok in H. rewrite forallb_forall in H.
+  specialize (H g (in_all_grp g)). repeat (apply andb_true_iff in H; destruct H as [H ?]). apply Nat.leb_le. assumption.
+Qed.
+
+Lemma qtrunc_integer : forall z, qtrunc (inject_Z z) = inject_Z z.
+Proof. intros. unfold qtrunc, inject_Z. cbn [Qnum Qden]. rewrite Z.quot_1_r. reflexivity. Qed.
